@@ -1,6 +1,6 @@
 """C14 — recipes, word lists and separator functions are safe to share across goroutines (claimed as PARTIAL)."""
 import os, re, subprocess, json
-from .. import core
+from .. import core, chargen
 
 
 def run_stress(ctx, goroutines, iters, seed, procs=None, timeout=900):
@@ -48,6 +48,9 @@ def correspondence(ctx):
                 "methods, on the real OS source; every result is validated (length, alphabet, required sets, atoms, separators, entropy equal to "
                 "the recipe's). evaluations = API calls made; distinct_nontrivial = distinct (shared object, method) pairs exercised, counted by the program. "
                 "The static tie is the footprint computation over coq/Gen/Effects.v inside Properties/C14.v.")
+    # deterministic schedules: one generation parked inside its k-th read of the random source while another runs to completion
+    # (every k); by the interleaving theorem each must return its run-alone result — compared with the model
+    chargen.run_interleave(ctx, chargen.interleave_cases(ctx, 25 if ctx.tier == "quick" else 300), "C14")
     if not getattr(ctx.build, "race_ok", False):
         ctx.mismatches.append({"family": "race-build", "case": "go build -race", "impl": ctx.build.race_log[-800:], "model": None, "meta": {}})
         return
@@ -72,6 +75,12 @@ def oracle(ctx, deep):
 
 
 def replay(v):
+    if "stress_args" not in v:
+        r, _ = core.run_impl(["r " + v["line"]])
+        print(v["line"][:300])
+        print("->", r.get("r"))
+        print("violation:", v["what"])
+        return 1
     g, it, sd, procs = v["stress_args"]
     class C:  # minimal ctx
         notes = []
